@@ -77,7 +77,7 @@ class SchemeArgument(str, Enum):
 
 
 def _print_Piecewise(
-    printer: CodePrinter, expr: sympy.Piecewise, **kwargs
+    printer: CodePrinter, expr: sympy.Piecewise, simplify: bool = True, **kwargs
 ) -> tuple[tuple[str, ...], tuple[str, ...]]:
     from sympy.logic.boolalg import ITE, simplify_logic
 
@@ -89,7 +89,7 @@ def _print_Piecewise(
             return printer._print(cond)
 
     try:
-        simplified = sympy.simplify(expr)
+        simplified = sympy.simplify(expr) if simplify else expr
         # Keep the simplification only if it is still a Piecewise: e.g.
         # Piecewise((x, Eq(x, y)), (y, True)) simplifies to the plain symbol y,
         # which has no (expr, cond) pairs to print
